@@ -55,7 +55,7 @@ def validate_octave_path(target_path: str) -> tuple[bool, str | None]:
             current = Path("/")
             for part in absolute.parts[1:]:  # Skip root
                 current = current / part
-                if current.exists() and current.is_symlink():
+                if current.is_symlink():  # lstat: also true for a dangling link
                     # Found a symlink - check if it's a system symlink
                     symlink_depth = len(Path(current).parts)
                     resolved_target = current.resolve()
@@ -152,7 +152,7 @@ def atomic_write_octave(
         }
 
     # Step 2: Check symlink at target
-    if path_obj.exists() and path_obj.is_symlink():
+    if path_obj.is_symlink():  # lstat: also true for a dangling link
         return {
             "status": "error",
             "error": "Cannot write to symlink target",
